@@ -434,7 +434,10 @@ class SInt:
                 return [0] * (c.bit_length() - 1) + a.bits
         return None
 
-    __hash__ = None
+    def __hash__(self):
+        if not self.terms:
+            return hash(self.const)
+        return 0x53594D
 
     # ------------------------------------------------------------------ concretisation hooks
     def __bool__(self):
